@@ -86,6 +86,9 @@ func runSolver(ctx context.Context, sc solverCmd, file string, timeoutS int) (st
 	case "sat", "unsat", "unknown":
 		return first, s
 	}
+	if strings.HasPrefix(first, "(error") {
+		return "error", s
+	}
 	if strings.Contains(s, "timeout") || cctx.Err() != nil {
 		return "timeout", s
 	}
@@ -167,6 +170,7 @@ func Solve(o *Obligation, dir string, idx int, timeoutS int) *Outcome {
 		}()
 	}
 	var all []string
+	nerr := 0
 	for range solvers {
 		x := <-ch
 		all = append(all, x.name+": "+firstLines(x.out, 3))
@@ -174,8 +178,15 @@ func Solve(o *Obligation, dir string, idx int, timeoutS int) *Outcome {
 			cancel()
 			return finish(x.v, x.name, x.out)
 		}
+		if x.v == "error" {
+			nerr++
+		}
 	}
-	return finish("unknown", "none", strings.Join(all, "\n"))
+	fin := finish("unknown", "none", strings.Join(all, "\n"))
+	if nerr == len(solvers) {
+		fin.Status = "solver-error"
+	}
+	return fin
 }
 
 func firstLines(s string, n int) string {
